@@ -9,6 +9,9 @@ from .core.symexpr import expr, show, strip_refs
 from . import fmtfeat
 
 RULES = {
+    "C04.5": "a batch is visible as one contiguous run (= C07.6): the single-entry reader and the recovery scan accept every entry the batch writer placed - the comparisons of "
+             "Block::read are the header-length sanity test, `entry end > file length` and the checksum comparison only. An extra bound (room left in the block, the block's "
+             "limit) turns away a legal entry at an exact boundary - e.g. an empty payload whose header fills the block to its last byte - and the batch shows up with a hole",
     "C04.1": "rotation is atomic with respect to exits (NOEXIT): in Writer::write and Writer::batch_write, from every call that seals the current block "
              "(Reader::append_block_to_chain) every path reaches the store that installs the successor block into current_block before any return",
     "C04.2": "rejections precede effects (MPT): no `return Err(io::Error::new(InvalidInput|WouldBlock, ..))` built in the writer bodies is reachable from an effect site "
@@ -812,6 +815,8 @@ def run(ctx):
     check_error_discipline(ctx, facts)
     check_guard(ctx, facts)
     check_batch_flag(ctx, facts)
+    from .c07 import check_reader_rejections      # (c07 imports from this module at load time; import here, at run time)
+    check_reader_rejections(ctx, facts, rid="C04.5")
     ctx.assume("NOT decided: behaviour under injected completion failures beyond these shapes; that zeroed headers make a rolled-back batch invisible after restart")
     ctx.assume("the rows of INFEASIBLE_EXITS were confirmed by reading the pinned tree; each carries its reason in the evidence")
     return {
